@@ -104,6 +104,7 @@ def build(spec):
     ntype = StochasticNetwork if spec.get("stochastic_type") else ChargingNetwork
     volt = spec.get("evse_voltage", 208)
     basic = spec["basic"]
+    spec = dict(spec, caps={g: (np.float64(0.0) if c == "np0" else c) for g, c in spec["caps"].items()})
     with contextlib.redirect_stdout(io.StringIO()):
         if spec["site"] == "caltech":
             cap = spec["caps"]["main"]
@@ -149,13 +150,16 @@ def line_currents(groups, cur):
 
 
 def judge(spec, topo, ids, S, what):
+    spec = dict(spec, caps={g: (0.0 if c == "np0" else c) for g, c in spec["caps"].items()})
     cur = dict(zip(ids, (float(x) for x in S)))
     worst = 0.0
     for name, members in topo["transformers"].items():
         cap = spec["caps"][name]
         P = 120.0 * SQ3 * sum(cur[s] for s in members) / 1000.0
-        require(P <= cap * (1 + 1e-6), "accepted_schedule_exceeds_transformer_rating", lambda: "%s: %s transformer of %s rated %.4g kW, accepted schedule draws %.6g kW (ratio %.5f)" % (what, name, spec["site"], cap, P, P / cap))
-        worst = max(worst, P / cap)
+        # 1e-5 kW absolute: the network's own 1e-5 A tolerance on each of three line currents is
+        # 3.6e-6 kW; it only matters for ratings near 0 kW (a transformer taken out of service)
+        require(P <= cap * (1 + 1e-6) + 1e-5, "accepted_schedule_exceeds_transformer_rating", lambda: "%s: %s transformer of %s rated %.4g kW, accepted schedule draws %.6g kW" % (what, name, spec["site"], cap, P))
+        worst = max(worst, P / cap if cap > 0 else 0.0)
     for name, (members, limit) in topo["pods"].items():
         tot = sum(cur[s] for s in members)
         require(tot <= limit * (1 + 1e-6) + 1e-4, "accepted_schedule_exceeds_pod_rating", lambda: "%s: %s carries %.6g A, rating %g A" % (what, name, tot, limit))
@@ -220,8 +224,10 @@ def prop(spec, rec):
         labels.add("non_default_evse_voltage")
     if multi:
         labels.add("two_period_schedule_equal_totals")
-    if any(not math.isfinite(c) or c > 1e5 for c in spec["caps"].values()):
+    if any(c != "np0" and (not math.isfinite(c) or c > 1e5) for c in spec["caps"].values()):
         labels.add("huge_transformer_capacity")
+    if any(c == "np0" or c < 5 for c in spec["caps"].values()):
+        labels.add("transformer_rated_zero_or_below_one_car")
     if spec.get("prior_lenient"):
         # an earlier what-if question with generous tolerances (same shape) on the same object
         for lin in (False, True):
@@ -314,6 +320,12 @@ def cases(draw):
         caps[big] = draw(st.sampled_from([1e6, 1e9, float("inf")]))
         if len(caps) > 1:
             group = [g for g in sorted(caps) if g != big][0]
+    elif draw(st.integers(0, 7)) == 0:
+        # a transformer taken out of service (rated 0 kW, also written 0.0 or as a numpy number) or
+        # rated far below one charging car: nothing, or next to nothing, may flow through it
+        g0 = draw(st.sampled_from(sorted(caps)))
+        caps[g0] = draw(st.sampled_from([0, 0.0, "np0", 1e-3, 0.5, 3]))
+        group = g0
     kind = draw(st.sampled_from(["uniform", "sparse", "phase_heavy", "balanced", "balanced"]))
     pairs = [topo["pairs"][s] for s in topo["transformers"][group]]
     if kind == "uniform":
@@ -357,12 +369,12 @@ def cases(draw):
 
 
 def structure_items(tier):
-    return [{"site": s, "basic": b, "json": j} for s in ("caltech", "jpl", "office001") for b in (True, False) for j in (False, True)]
+    return [{"site": s, "basic": b, "json": j, "cap": c} for s in ("caltech", "jpl", "office001") for b in (True, False) for j in (False, True) for c in (100.0, 0)]
 
 
 def prop_structure(spec, rec):
     topo = topology(spec["site"])
-    caps = {g: 100.0 for g in topo["transformers"]}
+    caps = {g: spec.get("cap", 100.0) for g in topo["transformers"]}
     net = build({"site": spec["site"], "basic": spec["basic"], "caps": caps, "json": spec.get("json")})
     ids = list(net.station_ids)
     require(len(ids) == len(set(ids)), "duplicate_station", lambda: "duplicate station ids in %s" % spec["site"])
